@@ -238,10 +238,16 @@ def vhdx_params(draw, conformant=True, small=True):
     if draw(st.integers(0, 7)) == 0:
         p['meta_before'] = draw(st.sampled_from([100, 2045]))
         p['meta_after'] = 0 if p['meta_before'] == 2045 else 1
+    p['meta_len'] = draw(st.sampled_from([MI, MI, 2 * MI, 2 ** 32 - 1,
+                                           p['item_offset'] + 8]))
     if not conformant:
         kind = draw(st.sampled_from(['count', 'mcount', 'ilen', 'sig',
                                      'msig', 'ioff_in_table', 'meta_low',
-                                     'meta_unaligned']))
+                                     'meta_unaligned', 'meta_len']))
+        if kind == 'meta_len':
+            p['meta_len'] = draw(st.sampled_from(
+                [0, 32, 64 * KI, p['item_offset'], p['item_offset'] - 1,
+                 p['item_offset'] + 7]))
         if kind == 'count':
             p['region_count'] = draw(st.sampled_from([0, 2047, 2048, 65535,
                                                       2 ** 32 - 1]))
@@ -423,8 +429,65 @@ def unstructured():
     ).map(lambda b: {'bytes': b.hex(), 'kind': 'unstructured'})
 
 
+@st.composite
+def field_maxed_images(draw, fmts=g.FORMATS, extend=None):
+    """A valid image with 1-3 of the numeric header fields its format
+    defines set to hostile values (offsets inside the stream combined with
+    huge lengths, maximal counts, ...)."""
+    fmts = [f for f in fmts if g.FIELDS.get(f)] or ['qcow2']
+    rec = draw(valid_images(fmts))
+    fmt = rec['base'][0]
+    fields = g.FIELDS[fmt]
+    edits = []
+    for off, width, order in draw(st.lists(st.sampled_from(fields),
+                                           min_size=1, max_size=3,
+                                           unique=True)):
+        val = draw(st.one_of(st.sampled_from(g.HOSTILE_VALUES),
+                             st.integers(0, 2 ** (8 * width) - 1)))
+        edits.append([off, g.field_bytes(val, width, order).hex()])
+    rec = dict(rec, edits=edits, kind='fieldmax')
+    if extend:
+        rec['extend'] = [draw(fills), draw(st.sampled_from(extend))]
+    return rec
+
+
+@st.composite
+def text_descriptors(draw):
+    """Text-only VMDK descriptor files, optionally carrying another
+    format's ASCII signature in their first bytes / an ISO signature."""
+    lines = list(draw(vmdk_lines(safe=draw(st.booleans()))))
+    prefix = draw(st.sampled_from(['', '', 'conectix', 'vhdxfile',
+                                   '# conectix', 'KDMV']))
+    text = ('\n'.join(lines) + '\n').encode('ascii', 'replace')
+    if prefix:
+        text = prefix.encode() + b'\n' + text
+    pad = draw(st.sampled_from([0, 0, 600, 40000]))
+    if pad:
+        text = text + b'# pad\n' * (pad // 6)
+        if pad == 40000 and draw(st.booleans()):
+            text = text[:32769] + b'CD001' + text[32774:]
+    return {'bytes': text.hex(), 'kind': 'textdesc'}
+
+
+@st.composite
+def image_plus_sig(draw, fmts=g.FORMATS):
+    """A full (valid or hostile) image with another format's signature
+    stamped where that format keeps it."""
+    rec = draw(st.one_of(valid_images(fmts), any_trait_images(fmts),
+                         field_maxed_images(fmts)))
+    data, img = realize(rec)
+    edits = list(rec.get('edits') or [])
+    for name in draw(st.lists(st.sampled_from(['vdi', 'gpt', 'iso']),
+                              min_size=1, max_size=2, unique=True)):
+        off, sig, _n = g.SIGNATURES[name]
+        if off + len(sig) <= len(data) and name != rec['base'][0]:
+            edits.append([off, sig.hex()])
+    return dict(rec, edits=edits, kind='imgplussig')
+
+
 def any_content(fmts=g.FORMATS):
     return st.one_of(valid_images(fmts), any_trait_images(fmts),
                      mutated_images(fmts), mutated_images(fmts),
                      truncated_images(fmts), extended_images(fmts),
-                     polyglots(), unstructured())
+                     polyglots(), unstructured(), field_maxed_images(fmts),
+                     text_descriptors(), image_plus_sig(fmts))
